@@ -403,6 +403,61 @@ func runC09(o *Out) {
 	}
 	c09Sequences(o, docs)
 	c09BoolCases(o)
+	c09WindowSweep(o)
+}
+
+// every byte of a document on every side of the boundaries at which the stream buffer is refilled and moved to a
+// larger allocation (512, 1024): the document is shifted by leading white space, the reader fills every request
+// completely (which is what makes the next refill reallocate) or stops one byte short of it
+func c09WindowSweep(o *Out) {
+	docs := []string{
+		`{"\u0061":-12345,"b":"x\ny\u00e9\ud83d\ude00z","\u0063":[1,22,333],"d":{"k\"q":"v"},"g":true,"n":null}`,
+		`{"e":{"\u0061":7,"\u0062":"in\\ner","e":{"a":1}},"f":-1.25e+3,"h":"AQIDBA==","\u006a":[{"x":1,"y":"one"},{"\u0078":2}]}`,
+		`{"unknown\u0020key":{"deep":[1,{"x":"\u0041"}]},"a":5,"m":["p\tq","r"],"k": {"raw" : [1, 2]} ,"l":{"p":null}}`,
+		`{"i":[true,false,null,"s\u0000t",1e2,{"\ud834\udd1e":"\ud834\udd1e"}],"A":9,"\u0042":"case"}`,
+		`["\u0061\\",-0.5,{"\u006b":"v\"q"},false,null,"\ud83d\ude00",[[]],{}]`,
+		`"plain \u00e9 \ud83d\ude00 \"quoted\" \\ tail"`,
+		`-123456789012345678`,
+		`123456.789e-3`,
+		`{"d":{"\u0041\u0042":"ab","\u00e9":"\u00e9","x\/y":"z"},"c":[-1,0,1]}`,
+	}
+	windows := []int{512, 1024}
+	if o.tier == "thorough" {
+		windows = append(windows, 2048, 4096)
+	}
+	for _, ds := range docs {
+		for _, w := range windows {
+			for k := -2; k <= len(ds)+2; k++ {
+				pad := w - k
+				if pad < 0 {
+					continue
+				}
+				doc := []byte(strings.Repeat(" ", pad) + ds)
+				for _, d := range []c09Dest{c09Dests[0], c09Dests[1], c09Dests[2], c09Dests[3], c09Dests[5], c09Dests[6], c09Dests[8]} {
+					buf := c09Buffer(doc, d)
+					if buf.panicd != "" {
+						continue
+					}
+					o.current(map[string]string{"property": "C09", "doc": clip(ds), "leading_spaces": strconv.Itoa(pad), "dest": d.name})
+					for _, cuts := range [][]int{nil, {w - 1}, {w - 1, 2*w - 2}} {
+						for len(cuts) > 0 && cuts[len(cuts)-1] >= len(doc) {
+							cuts = cuts[:len(cuts)-1]
+						}
+						got := c09Stream(doc, d, cuts)
+						o.count("window_sweep_decodes", 1)
+						if got.panicd != "" || got.ok != buf.ok || (got.ok && got.snap != buf.snap) {
+							if d.name == "int" && got.ok && !buf.ok {
+								continue
+							}
+							o.violation("C09", "Decoder.Decode and Unmarshal disagree when a token crosses a refill of the stream buffer", map[string]string{
+								"doc": ds, "leading_spaces": strconv.Itoa(pad), "dest": d.name, "cuts": fmt.Sprint(cuts), "stream": clip(got.String()), "buffer": clip(buf.String())})
+							break
+						}
+					}
+				}
+			}
+		}
+	}
 }
 
 // model correspondence: the lifted scanner instance for a *bool destination, on the same chunkings
